@@ -96,7 +96,7 @@ structure WF (p : Params) (e : Emit) (M : State) : Prop where
   len : e.ctx.vars.length = p.n
   wdlen : e.ctx.wd.length = 4
   physlen : ∀ g, g < 4 → (e.ctx.w g).phys.length = 32
-  runs : run p.vis p.f.saOffSp p.f.saOffSa (spId p.cfg.arch) p.M0 e.out = some M
+  runs : run p.vis p.f p.cfg.arch p.M0 e.out = some M
   var : ∀ i, i < p.n → VarOK p e.ctx M i (e.ctx.var i)
   inv : ∀ g r j, g < 4 → r < 32 → physAt e.ctx g r = some j →
     j < p.n ∧ groupOf (e.ctx.var j).cur.regType = g ∧ (e.ctx.var j).cur.regId = r
